@@ -67,6 +67,17 @@ func (idle) PostProcess([]*xhtml.Node) error { return nil }
 
 // element returns the description of the element a path hole reads.
 func element(v vals.V, suffix string) vals.V {
+	// JSON-tagged struct fields, read by tag in dotted and bracket spelling
+	switch v.K {
+	case "rec", "*rec":
+		return vals.Str(v.M["Title"].S)
+	case "[]rec", "[]*rec":
+		i := 0
+		if strings.HasPrefix(suffix, "[1]") || strings.HasPrefix(suffix, ".1") {
+			i = 1
+		}
+		return vals.Str(v.L[i].M["Title"].S)
+	}
 	kind := map[string]string{"map*url": "url", "[]*url": "url", "maperr": "err", "[]err": "err", "map*big": "bigint"}[v.K]
 	key := strings.Trim(suffix, ".[]'\"")
 	if v.M != nil {
@@ -219,6 +230,7 @@ func expectedSource(c Case) string {
 		}
 		s = strings.ReplaceAll(s, "{{ "+name+" }}", esc)
 		s = strings.ReplaceAll(s, "{{"+name+"}}", esc)
+		s = strings.ReplaceAll(s, "{{\n  "+name+"\n}}", esc)
 	}
 	return s
 }
@@ -443,7 +455,16 @@ func (g *gctx) scalar() vals.V {
 // elementHole returns a value description and the path suffix of one of its elements.
 func (g *gctx) elementHole() (vals.V, string) {
 	e := func(s string) vals.V { return vals.V{S: s} }
-	switch rapid.IntRange(0, 4).Draw(g.t, "ek") {
+	rec := func(title string) vals.V {
+		return vals.V{K: "rec", M: map[string]vals.V{"Title": e(title), "Name": e("n")}}
+	}
+	switch rapid.IntRange(0, 6).Draw(g.t, "ek") {
+	case 5:
+		v := rec("War & Peace <1869>")
+		v.K = rapid.SampledFrom([]string{"rec", "*rec"}).Draw(g.t, "reck")
+		return v, rapid.SampledFrom([]string{".title", "['title']"}).Draw(g.t, "ep")
+	case 6:
+		return vals.V{K: rapid.SampledFrom([]string{"[]rec", "[]*rec"}).Draw(g.t, "reck"), L: []vals.V{rec("first & last"), rec("it's <b>")}}, rapid.SampledFrom([]string{"[0].title", ".0.title", "[1]['title']", "[1].title", ".1['title']"}).Draw(g.t, "ep")
 	case 0:
 		return vals.V{K: "map*url", M: map[string]vals.V{"home": e("https://example.com/docs/start?lang=en&v=2#top"), "rel": e("/a b/<c>")}}, rapid.SampledFrom([]string{".home", ".rel", "['home']"}).Draw(g.t, "ep")
 	case 1:
@@ -810,6 +831,21 @@ func respell(c Case) Case {
 		}
 	case 2:
 		c.Source = strings.ReplaceAll(strings.ReplaceAll(c.Source, "\r\n", "\n"), "\n", "\r\n")
+	case 3, 4:
+		// the mustaches of the holes written tight, or spread over several lines
+		for name := range c.Data {
+			if _, path := c.Paths[name]; path {
+				continue
+			}
+			if str := fmt.Sprint(c.Data[name].Go()); strings.HasPrefix(str, "\n") || strings.HasPrefix(str, "\r") {
+				continue // (the expectation for a leading line break right after <pre> knows one spelling)
+			}
+			if h%7 == 3 {
+				c.Source = strings.ReplaceAll(c.Source, "{{ "+name+" }}", "{{"+name+"}}")
+			} else {
+				c.Source = strings.ReplaceAll(c.Source, "{{ "+name+" }}", "{{\n  "+name+"\n}}")
+			}
+		}
 	}
 	return c
 }
